@@ -175,6 +175,11 @@ def stream_cases(prop, tier, seed, sched_cases=()):
                              abort=abort)
             add(cap=cap if rng.random() < 0.3 else small, prog=prog, rand_steps=400, rseed=rng.randrange(1 << 30),
                 rand_cdrop=cdrop and rng.random() < 0.4, extra=rng.choice([1, 2, 4]))
+    if prop == "C09":
+        # free-running stress with a gzip writer: flush must leave nothing private even under contention
+        for i in range(40 * k):
+            add(cap=rng.choice([1, 4, 16]), ae="gzip", prog=[["write", rng.choice([1, 5, 40])], ["flush", 0]] * rng.choice([6, 15]) + [["drop", 0]],
+                stress=150 if not T else 600)
     if prop in ("C10", "C08", "C11", "C12"):
         # free-running stress (no baton): real lock contention, sites without yield points
         for i in range(60 * k):
